@@ -919,9 +919,23 @@ def _check_update_labels(ctx):
     # truth table
     rows = []
     bad = []
+    def is_q(t):
+        s = strip_conv(t)
+        return s[0] == "call" and s[1] == TDC
+
+    def is_thr(t):
+        return strip_conv(t) == ("param", p_fdr)
+
     for target in (True, False):
-        for rel in ("<", "=", ">"):
-            def atoms(t, target=target, rel=rel):
+        # a tolerance comparison of the q-value with the threshold
+        # (np.isclose, math.isclose) is true when they are equal and may be
+        # either when they differ: both outcomes are tabulated
+        for rel, close in (("<", False), ("<", True), ("=", True),
+                           (">", False), (">", True)):
+            used_close = []
+
+            def atoms(t, target=target, rel=rel, close=close,
+                      used_close=used_close):
                 s = strip_conv(t)
                 if s == ("param", p_targets):
                     return target
@@ -929,6 +943,15 @@ def _check_update_labels(ctx):
                     return Sym("q", {"thr": rel})
                 if s == ("param", p_fdr):
                     return Sym("thr")
+                c_ = np_call(t) if t[0] in ("call", "mcall") else None
+                if (c_ and c_[0] in ("isclose", "allclose")) or (
+                        t[0] == "call" and t[1] == "math.isclose"):
+                    a_ = c_[1] if c_ else t[2]
+                    if len(a_) >= 2 and (
+                            (is_q(a_[0]) and is_thr(a_[1]))
+                            or (is_thr(a_[0]) and is_q(a_[1]))):
+                        used_close.append(1)
+                        return close
                 raise KeyError
             try:
                 got = tt_eval(rterm, atoms)
@@ -936,9 +959,14 @@ def _check_update_labels(ctx):
                 raise AnalysisError(
                     f"{f.qual}: label expression outside the point-wise "
                     f"fragment ({e}): {show(rterm, 200)}")
+            if close != (rel == "=") and not used_close:
+                continue        # no tolerance comparison: same row as before
             want = -1 if not target else (1 if rel in "<=" else 0)
-            rows.append({"target": target, "q?threshold": rel,
-                         "label": got, "expected": want})
+            row = {"target": target, "q?threshold": rel,
+                   "label": got, "expected": want}
+            if used_close:
+                row["within tolerance"] = close
+            rows.append(row)
             if got != want:
                 bad.append(rows[-1])
     ctx.extra["label_truth_table"] = rows
